@@ -130,6 +130,45 @@ pub fn main_valid<B: Fld>(spec: &AirSpec, cols: &[Vec<u128>], values: &[Vec<u128
     Ok(())
 }
 
+/// increment of running-sum column j at a step: r_j * main_0 (+ r_{j+1} * main_last when there are >= 2 random elements)
+pub fn aux_increment(spec: &AirSpec, ctx: &Ctx, main: &[Vec<u128>], rands: &[El], j: usize, step: usize) -> El {
+    let nr = rands.len();
+    let last = spec.width() - 1;
+    let m0 = main[0][step];
+    let ml = main[last][step];
+    let mut v = if nr == 0 { [m0, 0, 0] } else { ctx.mul_base(&rands[j % nr], m0) };
+    if nr >= 2 {
+        v = ctx.add(&v, &ctx.mul_base(&rands[(j + 1) % nr], ml));
+    }
+    v
+}
+
+/// honest auxiliary columns (running sums, then the Lagrange kernel column if requested)
+pub fn build_aux_cols(spec: &AirSpec, ctx: &Ctx, main: &[Vec<u128>], rands: &[El], lagrange: Option<&[El]>) -> Vec<Vec<El>> {
+    let n = spec.n;
+    let mut cols: Vec<Vec<El>> = vec![];
+    for j in 0..spec.sum_cols() {
+        let mut col = vec![Ctx::ZERO; n];
+        for step in 0..n - 1 {
+            col[step + 1] = ctx.add(&col[step], &aux_increment(spec, ctx, main, rands, j, step));
+        }
+        cols.push(col);
+    }
+    if spec.has_lagrange() {
+        let r = lagrange.expect("lagrange rand elements");
+        let mut col = Vec::with_capacity(n);
+        for row in 0..n {
+            let mut v = Ctx::ONE;
+            for (bit, ri) in r.iter().enumerate() {
+                v = if row & (1 << bit) == 0 { ctx.mul(&v, &ctx.sub(&Ctx::ONE, ri)) } else { ctx.mul(&v, ri) };
+            }
+            col.push(v);
+        }
+        cols.push(col);
+    }
+    cols
+}
+
 // ------------------------------------------------------------------------------------------------
 // trace type
 // ------------------------------------------------------------------------------------------------
@@ -249,38 +288,10 @@ where
         let n = spec.n;
         let main = &main_trace.main;
         let rands: Vec<El> = aux_rand_elements.rand_elements().iter().map(|r| el_of::<B, E>(r)).collect();
-        let nr = rands.len();
-        let last = spec.width() - 1;
-        let inc = |j: usize, step: usize| -> El {
-            let m0 = main.get(0, step).int();
-            let ml = main.get(last, step).int();
-            let mut v = if nr == 0 { [m0, 0, 0] } else { ctx.mul_base(&rands[j % nr], m0) };
-            if nr >= 2 {
-                v = ctx.add(&v, &ctx.mul_base(&rands[(j + 1) % nr], ml));
-            }
-            v
-        };
-        // honest columns
-        let mut cols: Vec<Vec<El>> = vec![];
-        for j in 0..spec.sum_cols() {
-            let mut col = vec![Ctx::ZERO; n];
-            for step in 0..n - 1 {
-                col[step + 1] = ctx.add(&col[step], &inc(j, step));
-            }
-            cols.push(col);
-        }
-        if spec.has_lagrange() {
-            let r: Vec<El> = aux_rand_elements.lagrange().expect("lagrange rand elements").iter().map(|x| el_of::<B, E>(x)).collect();
-            let mut col = Vec::with_capacity(n);
-            for row in 0..n {
-                let mut v = Ctx::ONE;
-                for (bit, ri) in r.iter().enumerate() {
-                    v = if row & (1 << bit) == 0 { ctx.mul(&v, &ctx.sub(&Ctx::ONE, ri)) } else { ctx.mul(&v, ri) };
-                }
-                col.push(v);
-            }
-            cols.push(col);
-        }
+        let lag: Option<Vec<El>> = aux_rand_elements.lagrange().map(|l| l.iter().map(|x| el_of::<B, E>(x)).collect());
+        let main_cols: Vec<Vec<u128>> = (0..main.num_cols()).map(|c| main.get_column(c).iter().map(|x| x.int()).collect()).collect();
+        let mut cols = build_aux_cols(spec, &ctx, &main_cols, &rands, lag.as_deref());
+        let inc = |j: usize, step: usize| aux_increment(spec, &ctx, &main_cols, &rands, j, step);
         // corruption of one cell
         let mut verdict: Result<(), String> = Ok(());
         if let Some(c) = self.aux_corruption {
